@@ -19,6 +19,11 @@ STUB = ["identity hash of IR objects (PRNG chosen: memo dictionaries and referen
         "GC schedule"]
 
 
+def sc(x):
+    """The scalar/array attribute as stored (the getter hides it while the bundle holds several items)."""
+    return bool(getattr(x, "_is_scalar", x.is_scalar))
+
+
 def mutable_pairs(a, b):
     """Pairs of corresponding mutable data values of two elements."""
     for k, v in a.data.items():
@@ -333,7 +338,7 @@ class C07(Prop):
             raise Violation("C07.cable.not_detached", disc, "cloned cable keeps its definition")
         if len(c.wires) != len(s.wires) or any(x.cable is not c or len(x.pins) for x in c.wires):
             raise Violation("C07.cable.inner_structure", disc, "wires of the cloned cable")
-        if (c.is_downto, c.is_scalar, c.lower_index) != (s.is_downto, s.is_scalar, s.lower_index):
+        if (c.is_downto, sc(c), c.lower_index) != (s.is_downto, sc(s), s.lower_index):
             raise Violation("C07.cable.attributes", disc, "bundle attributes differ")
         self.deep("cable", s, c)
 
@@ -342,7 +347,7 @@ class C07(Prop):
             raise Violation("C07.port.not_detached", disc, "cloned port keeps its definition")
         if len(c.pins) != len(s.pins) or any(x.port is not c or x.wire is not None for x in c.pins):
             raise Violation("C07.port.inner_structure", disc, "pins of the cloned port")
-        if (c.is_downto, c.is_scalar, c.lower_index, c.direction) != (s.is_downto, s.is_scalar, s.lower_index,
+        if (c.is_downto, sc(c), c.lower_index, c.direction) != (s.is_downto, sc(s), s.lower_index,
                                                                          s.direction):
             raise Violation("C07.port.attributes", disc, "bundle attributes or direction differ")
         self.deep("port", s, c)
@@ -388,8 +393,8 @@ class C07(Prop):
         for a, b in zip(s.ports, c.ports):
             if b.definition is not c:
                 raise Violation("C07.%s.inner_structure" % kind, disc, "port back-pointer")
-            if (a.direction, a.is_downto, a.is_scalar, a.lower_index, len(a.pins)) != (
-                    b.direction, b.is_downto, b.is_scalar, b.lower_index, len(b.pins)):
+            if (a.direction, a.is_downto, sc(a), a.lower_index, len(a.pins)) != (
+                    b.direction, b.is_downto, sc(b), b.lower_index, len(b.pins)):
                 raise Violation("C07.%s.inner_structure" % kind, disc, "port shape differs")
             self.deep(kind, a, b)
         for a, b in zip(s.children, c.children):
@@ -408,8 +413,8 @@ class C07(Prop):
         for a, b in zip(s.cables, c.cables):
             if b.definition is not c:
                 raise Violation("C07.%s.inner_structure" % kind, disc, "cable back-pointer")
-            if (a.is_downto, a.is_scalar, a.lower_index, len(a.wires)) != (
-                    b.is_downto, b.is_scalar, b.lower_index, len(b.wires)):
+            if (a.is_downto, sc(a), a.lower_index, len(a.wires)) != (
+                    b.is_downto, sc(b), b.lower_index, len(b.wires)):
                 raise Violation("C07.%s.inner_structure" % kind, disc, "cable shape differs")
             self.deep(kind, a, b)
             for wa, wb in zip(a.wires, b.wires):
